@@ -14,6 +14,10 @@ from .gamma import Gamma
 FAMS = [("ints", "int"), ("str", "int"), ("mixed", "int"), ("numstr", "int"), ("shift", "intfloat"), ("mixed", "int"), ("numstr", "intfloat")]
 
 
+# histories use the bulk list formats, which are ambiguous for labels mixing strings and numbers
+HFAMS = [("ints", "int"), ("str", "int"), ("shift", "intfloat"), ("numstr", "int"), ("ints", "intfloat")]
+
+
 class BigGamma:
     """plain integer labels of any size (instances beyond the bounded id universe)"""
     prev = None
@@ -97,6 +101,41 @@ def _observe(tag, j, g, rng, n_orient, explicit=None):
                 S0.add_simplex([g.node(7), g.node(8)])
             except Exception:  # noqa: BLE001
                 pass
+    return _measure(tag, S, g, rng, n_orient, f"{'explicit' if explicit else 'automatic'} ids")
+
+
+def history_complex(g, rng, length):
+    """a complex reached by a random history of its own mutators (the generator and adapter of the C03 driver:
+    explicit ids that are in use, ahead of or behind the counter, bulk formats, removals of nodes and
+    simplices in between)"""
+    from . import core, sc
+
+    S = xgi.SimplicialComplex()
+    gen = core.domain_gen(sc.rand_op, g)
+    pre, _ = sc.proj(S, g)
+    for _ in range(length):
+        op = gen(rng, pre, 5)
+        if op["name"] in ("freeze", "clear"):
+            continue
+        res, _, g2 = sc.call(S, op, g, rng)
+        if res == "ok":
+            g = g2
+        pre, anom = sc.proj(S, g)
+        if anom or pre.get("uid", 0) > 40:
+            break
+    return S, g
+
+
+def observe_history(tag, g, rng, n_orient, length):
+    try:
+        S, g = history_complex(g, rng, length)
+        return _measure(tag, S, g, rng, n_orient, f"after a history of {length} calls")
+    except Exception as ex:  # noqa: BLE001
+        return [{"rid": f"{tag}.o0", "what": f"complex ({g.name}): history", "st": obscore_empty(), "B": [], "L": [],
+                 "anom": [f"setup.{hg.classify(ex)}"]}]
+
+
+def _measure(tag, S, g, rng, n_orient, label):
     st, anom = hg.proj(S, g)
     frozen = rng.random() < 0.4
     if frozen:
@@ -146,7 +185,7 @@ def _observe(tag, j, g, rng, n_orient, explicit=None):
                               "m": [[int(round(x)) if abs(x - round(x)) < 1e-12 else 999 for x in row] for row in Lk.tolist()]})
             except Exception as ex:  # noqa: BLE001
                 errs.append(hg.classify(ex))
-        out.append({"rid": f"{tag}.o{oi}", "what": f"complex ({g.name}, {'explicit' if explicit else 'automatic'} ids, "
+        out.append({"rid": f"{tag}.o{oi}", "what": f"complex ({g.name}, {label}, "
                     f"{'default' if oi == 0 else 'random'} orientations)", "st": st, "B": B, "L": L,
                     "anom": sorted(set(anom + errs))})
     return out
@@ -159,6 +198,9 @@ def _worker(args):
         rng = random.Random(seed_ * 86028121 + base + k)
         g = Gamma(*FAMS[(base + k) % len(FAMS)])
         out += observe(f"s{base + k}", j, g, rng, n_orient)
+        if k % 2 == 0:
+            gh = Gamma(*HFAMS[(base + k // 2) % len(HFAMS)])
+            out += observe_history(f"h{base + k}", gh, rng, 2, rng.choice([4, 6, 9, 12]))
     return out
 
 
@@ -199,7 +241,8 @@ def run(tier, seed_):
         "C13", tier, seed_, t, records=recs, trace_module="TraceC13", mc_stats=mc,
         rule="inputs = simplicial complexes generated by every TLC-enumerated set of generators on at most 4 (quick) / 5 "
              "(thorough) vertices, closed by the library, with numeric, string and mixed node labels, automatic or "
-             "explicit (string / gapped) simplex ids, default and random orientation assignments, every order "
+             "explicit (string / gapped) simplex ids, and complexes reached by random histories of the complex's own "
+             "mutators (every second generator set); default and random orientation assignments, every order "
              "0..dim+1; distinct = (sorted simplex sizes, label family, orientation kind)",
         samples=samples, selftest=selftest,
         class_of=lambda r: (tuple(sorted(len(m) for m in r["st"]["e2n"])), r["what"]),
